@@ -5,7 +5,7 @@
    d except for omitted null members.  The composition with the three front-ends (acceptance by the
    SOURCE schema) is covered by the correspondence of checks/c01.py, not by these theorems. *)
 From Coq Require Import List String ZArith Bool.
-From Cog Require Import Model.GoSem Model.GoSemSpec08 Model.GoSemSpec01 Proofs.GoSemC01Proofs.
+From Cog Require Import Model.GoSem Model.GoSemSpec08 Model.GoSemSpec01 Model.GoSemSpec01F Proofs.GoSemC01Proofs.
 Import ListNotations.
 Local Open Scope string_scope.
 
@@ -22,20 +22,38 @@ Print Assumptions go_roundtrip_nf_refuted.
 Theorem go_roundtrip_nf_refuted_datetime : exists ctx p n d, ctx_supported ctx = true /\ struct_object ctx p n = true /\
   json_wf d = true /\ ir_valid_object ctx p n d = true /\ roundtrip_holds ctx p n d = false.
 Proof. exact GoSemC01Proofs.go_roundtrip_nf_refuted_datetime. Qed.
+Print Assumptions go_roundtrip_nf_refuted_datetime.
 Theorem go_roundtrip_nf_refuted_integer_literal : exists ctx p n d, ctx_supported ctx = true /\ struct_object ctx p n = true /\
   json_wf d = true /\ ir_valid_object ctx p n d = true /\ roundtrip_holds ctx p n d = false.
 Proof. exact GoSemC01Proofs.go_roundtrip_nf_refuted_integer_literal. Qed.
+Print Assumptions go_roundtrip_nf_refuted_integer_literal.
 Theorem go_roundtrip_nf_refuted_nested_maps : exists ctx p n d, ctx_supported ctx = true /\ struct_object ctx p n = true /\
   json_wf d = true /\ ir_valid_object ctx p n d = true /\ roundtrip_holds ctx p n d = false.
 Proof. exact GoSemC01Proofs.go_roundtrip_nf_refuted_nested_maps. Qed.
+Print Assumptions go_roundtrip_nf_refuted_nested_maps.
 
-(* outside the listed defects every valid document decodes with both decoders and round-trips *)
+(* outside the listed defects every valid document decodes with both decoders and round-trips.
+   roundtrip_safeF (Model/GoSemSpec01F.v) is the exclusion predicate: roundtrip_safe (Model/GoSemSpec01.v: optional
+   empty collections, non-canonical date-times, integers written with a fraction, floats beyond their width's
+   digits, absent required members, the three strict-decoder defects) strengthened, while proving, by
+     (a) a null array element / map value only where the strict decoder accepts one,
+     (b,c) struct fields reached through a reference, with distinct names, and every optional field nil-able
+           (cog's Go passes make optional fields nullable; ctx_supported does not say so),
+     (d) the discriminator member of a union of structs is not null,
+     (e) a collection branch of a union of scalars that matches the JSON shape accepts the elements.
+   The first attempt (with roundtrip_safe alone) is refuted: Proofs/GoSemC01Cex.v lists nine counterexamples. *)
 Theorem go_roundtrip_nf_partial : forall ctx p n d, ctx_supported ctx = true -> struct_object ctx p n = true ->
-  json_wf d = true -> ir_valid_object ctx p n d = true -> roundtrip_safe ctx p n d = true ->
+  json_wf d = true -> ir_valid_object ctx p n d = true -> roundtrip_safeF ctx p n d = true ->
   roundtrip_holds ctx p n d = true.
-Proof. exact GoSemC01Proofs.go_roundtrip_nf_partial. Qed.
+Proof. exact GoSemC01Proofs.go_roundtrip_nf_partial_weak. Qed.
 Print Assumptions go_roundtrip_nf_partial.
 
+(* the exclusion predicate of the theorem implies the one the known-finding causes of checks/c01.py are named after *)
+Theorem roundtrip_safeF_implies_safe : forall ctx p n d,
+  roundtrip_safeF ctx p n d = true -> roundtrip_safe ctx p n d = true.
+Proof. exact GoSemC01Proofs.roundtrip_safeF_implies_safe. Qed.
+Print Assumptions roundtrip_safeF_implies_safe.
+
 Example c01_nonvacuous : exists ctx p n d, ctx_supported ctx = true /\ struct_object ctx p n = true /\ json_wf d = true /\
-  ir_valid_object ctx p n d = true /\ roundtrip_safe ctx p n d = true /\ json_depth d >= 2.
-Proof. exact GoSemC01Proofs.c01_nonvacuous. Qed.
+  ir_valid_object ctx p n d = true /\ roundtrip_safeF ctx p n d = true /\ json_depth d >= 2.
+Proof. exact GoSemC01Proofs.c01_nonvacuous_weak. Qed.
